@@ -135,7 +135,13 @@ func productiveSinks(p *Prog, f *ssa.Function, v *ssa.Parameter, node *types.Nam
 					d = derived[t.X]
 				case *ssa.MakeInterface:
 					d = derived[t.X]
+				case *ssa.IndexAddr:
+					d = derived[t.X]
+				case *ssa.UnOp:
+					d = t.Op == token.MUL && derived[t.X]
 				}
+				// phis are deliberately not derived: a value merged from several paths says nothing about
+				// the path actually taken (uses through phis are credited at the defining instruction)
 				if d {
 					derived[val] = true
 					changed = true
